@@ -544,8 +544,10 @@ Definition c4_nest (max_nesting : N) (toks : list c4_tok) : c4_nres := c4_nest_r
    lim_d / lim_n = parser_max_container_size(true/false). *)
 Record c4_bst := mkC4bst { c4b_max : N; c4b_good : Z; c4b_bad : Z }.
 Inductive c4_bres := C4bGoOn (s : c4_bst) | C4bContainer | C4bBudget | C4bGiveUp.
+Definition c4_bad_limit (lim_d lim_n : N) (sanity : bool) (s : c4_bst) : N :=
+  if (negb (c4b_bad s =? 0)%Z) || sanity then lim_d else lim_n.     (* parser_max_container_size(bad_count_ || sanity_checks_) *)
 Definition c4_bad_check (lim_d lim_n : N) (sanity : bool) (olist dict : N) (in_array : bool) (s : c4_bst) : c4_bres :=
-  let limit := if (negb (c4b_bad s =? 0)%Z) || sanity then lim_d else lim_n in
+  let limit := c4_bad_limit lim_d lim_n sanity s in
   if (limit <=? olist) || (limit <=? dict) then C4bContainer
   else
     let hit := negb (c4b_max s =? 0) && (c4b_max s - 1 =? 0) in
@@ -557,8 +559,10 @@ Definition c4_bad_check (lim_d lim_n : N) (sanity : bool) (olist dict : N) (in_a
       if (5 <? bad')%Z || (negb in_array && (max' <? olist)) then C4bGiveUp
       else C4bGoOn (mkC4bst max' 0 bad').
 
-(* one event per token of parse_remainder: `++good_count_` for every token, then the check when the token is bad *)
-Record c4_bev := mkC4bev { c4e_bad : bool; c4e_olist : N; c4e_dict : N; c4e_in_array : bool }.
+(* one event per token of parse_remainder: `++good_count_` for every token, then the check when the token is bad;
+   a good token that goes through add_scalar (c4e_scalar) first tests the container size: when it is reached
+   add_scalar sets max_bad_count_ = 1 and calls the check, whose first test is the same one ("always throws") *)
+Record c4_bev := mkC4bev { c4e_bad : bool; c4e_scalar : bool; c4e_olist : N; c4e_dict : N; c4e_in_array : bool }.
 Fixpoint c4_bad_run (lim_d lim_n : N) (sanity : bool) (evs : list c4_bev) (s : c4_bst) (nbad : N) : c4_bres * N :=
   match evs with
   | [] => (C4bGoOn s, nbad)
@@ -569,6 +573,8 @@ Fixpoint c4_bad_run (lim_d lim_n : N) (sanity : bool) (evs : list c4_bev) (s : c
          | C4bGoOn s' => c4_bad_run lim_d lim_n sanity r s' (nbad + 1)
          | x => (x, nbad + 1)
          end
+    else if c4e_scalar e && ((c4_bad_limit lim_d lim_n sanity s <=? c4e_olist e) || (c4_bad_limit lim_d lim_n sanity s <=? c4e_dict e))
+    then (C4bContainer, nbad)
     else c4_bad_run lim_d lim_n sanity r s nbad
   end.
 
